@@ -5,7 +5,7 @@ import subprocess
 import sys
 
 VERIF = os.path.dirname(os.path.dirname(os.path.abspath(__file__)))
-ALL = ["C01", "C05", "C06", "C07", "C12", "C17"]
+ALL = ["C01", "C05", "C06", "C07", "C11", "C12", "C17"]
 
 
 def digests(pids, n, seed, tier="quick"):
@@ -13,6 +13,7 @@ def digests(pids, n, seed, tier="quick"):
     out = {}
     for pid in pids:
         mod = runner.load_prop(pid)
+        runner.ensure_zygote(mod)
         ds = []
         for idx in range(n):
             case = runner.make_case(mod, tier, seed, idx)
